@@ -285,7 +285,7 @@ type schedEvent struct {
 }
 
 var c09Scenarios = [][]string{
-	{"W", "W"}, {"W", "R"}, {"R", "W"}, {"Wfu", "W"}, {"W", "Wrb"}, {"Wfu", "R"}, {"W", "W", "R"}, {"R", "R", "W"}, {"Wsel", "W"},
+	{"W", "W"}, {"W", "R"}, {"R", "W"}, {"Wfu", "W"}, {"W", "Wrb"}, {"Wfu", "R"}, {"W", "W", "R"}, {"R", "R", "W"}, {"Wsel", "W"}, {"Wfx", "W"}, {"Wfs", "W"},
 }
 
 func c09Prog(kind string) string {
@@ -298,6 +298,10 @@ func c09Prog(kind string) string {
 		return "UPDATE counter SET n = n + 1, m = m + 1; ROLLBACK;"
 	case "Wsel":
 		return "SELECT n FROM counter; UPDATE counter SET n = n + 1, m = m + 1;"
+	case "Wfx": // read FOR UPDATE, run other program text, write what was read: the hold spans the whole transaction
+		return "VAR @v; SELECT @v := n FROM counter FOR UPDATE; EXECUTE 'VAR @x := 1;'; UPDATE counter SET n = @v + 1, m = @v + 1;"
+	case "Wfs":
+		return "VAR @v; SELECT @v := n FROM counter FOR UPDATE; SOURCE `noop.sql`; UPDATE counter SET n = @v + 1, m = @v + 1;"
 	}
 	return "SELECT n, m FROM counter;"
 }
@@ -305,7 +309,7 @@ func c09Prog(kind string) string {
 // runSchedule executes one schedule. choose(decision index, enabled roles, current) returns the role index to release.
 func runSchedule(w *core.Worker, scen []string, choose func(dec int, enabled []int, cur int) int) (sig []string, violations []string, switches int, ok bool) {
 	d := core.FreshDir(w.Work, "sched")
-	core.WriteFiles(d, map[string]string{"counter.csv": c09Counter})
+	core.WriteFiles(d, map[string]string{"counter.csv": c09Counter, "noop.sql": "VAR @sourced := 1;\n"})
 	fifoDir := core.FreshDir(w.Work, "fifo")
 	evPath := filepath.Join(fifoDir, "events")
 	_ = syscall.Mkfifo(evPath, 0600)
@@ -488,7 +492,7 @@ func runSchedule(w *core.Worker, scen []string, choose func(dec int, enabled []i
 		if ro.code != 0 {
 			viol(fmt.Sprintf("%s ended with exit code %d", ro.name, ro.code))
 		}
-		if (ro.kind == "W" || ro.kind == "Wfu" || ro.kind == "Wsel") && ro.code == 0 {
+		if (ro.kind == "W" || ro.kind == "Wfu" || ro.kind == "Wsel" || ro.kind == "Wfx" || ro.kind == "Wfs") && ro.code == 0 {
 			committed++
 		}
 		if ro.kind == "R" && ro.code == 0 {
